@@ -1806,6 +1806,20 @@ impl RdfExpressionPredicate {
     }
 
     fn eval_binary_op(&self, left: &Value, op: BinaryFilterOp, right: &Value) -> Option<Value> {
+        // A comparison with an unbound variable is an error, which removes the solution
+        // (SPARQL 17.2); it is not a comparison with some special value.
+        if matches!(
+            op,
+            BinaryFilterOp::Eq
+                | BinaryFilterOp::Ne
+                | BinaryFilterOp::Lt
+                | BinaryFilterOp::Le
+                | BinaryFilterOp::Gt
+                | BinaryFilterOp::Ge
+        ) && (matches!(left, Value::Null) || matches!(right, Value::Null))
+        {
+            return None;
+        }
         match op {
             BinaryFilterOp::And => Some(Value::Bool(left.as_bool()? && right.as_bool()?)),
             BinaryFilterOp::Or => Some(Value::Bool(left.as_bool()? || right.as_bool()?)),
